@@ -38,6 +38,27 @@ CHECKS["C18"] = dict(level="fault_enumeration", engine="sweep",
    note="An undetected mismatch by hash/proof collision (~2^-57 per case) would be reported as a violation; single-aggregator instances are excluded; tapes with coinciding seeds are excluded because they turn role swaps into no-ops.",
    design="§2 C18")
 
+CHECKS["C03"] = dict(level="exploration", engine="sweep",
+   technique="bounded-exhaustive enumeration of inputs x aggregation parameters x tapes on the real Poplar1 code through every wire encoding, enumeration of admissible parameter histories, heavy-hitters vs exact counting",
+   text="Poplar1 with 1..5-bit inputs: every input, every level, every non-empty sorted prefix set (all 273 parameters for <=3 bits; sets of size <=2 plus the full set for 4..5 bits) is verified by both aggregators with every message re-decoded from its wire encoding and unsharded; batches (all multisets of size 2/3, the full set) are aggregated and compared with plain prefix counting; admissible parameter histories are enumerated with is_agg_param_valid; long inputs up to 65536 bits at levels 0,1,mid,bits-2,bits-1 and around 21845/21846; the iterative heavy-hitters procedure for 3-bit strings over all batches of <=3 strings and thresholds 1..3 equals exact counting.",
+   note="Tapes (sharding randomness, nonce, key, ctx) are a fixed alphabet; bit lengths above 65536 are impossible by the u16 level field.",
+   design="§2 C03")
+CHECKS["C10"] = dict(level="exploration", engine="sweep",
+   technique="exhaustive enumeration of all input vectors over GF(17) (sizes <=4) and of the full standard basis for every power-of-two size on the real NTT/Lagrange routines, vs direct evaluation / O(n^2) Lagrange interpolation on residues",
+   text="Through feature-gated wrappers, ntt/ntt_set_s/ntt_inv/get_ntt are compared with direct Horner evaluation at the powers of the (independently validated) principal root for ALL input vectors of sizes 1,2,4 over GF(17) (linearity established exhaustively) and on the full standard basis with every output compared for every power-of-two size up to 2^10 (quick) / 2^14 (thorough) over all deployed and small fields, structured vectors up to 2^20; the Lagrange routines (batched evaluation at every node and off-node points, extension for every num_values in [0,n], doubling, multiplication on all basis pairs) against the direct interpolation formula; every size/capacity violation must be an Err.",
+   note="Sizes above the basis bound use four structured vectors; which primitive root is returned is checked for exact order only (derivation from the generator is C09's).",
+   design="§2 C10")
+CHECKS["C19"] = dict(level="exploration", engine="sweep",
+   technique="bounded-exhaustive enumeration of 0/1 vectors, non-binary positions and share/proof alterations on the real Prio2 code, decided by pigeonhole counting over more query points than the degree bound",
+   text="All 0/1 vectors up to length 8/10 (edge vectors up to 2^19-1) are sharded with fixed seeds, verified through all wire encodings and aggregated against integer sums; non-binary inputs with honest proofs and every single-element alteration of the leader share, helper seed bytes and a forged-proof menu are evaluated at 4n+1 distinct non-root query points through verify_init_with_query_rand: acceptance at more than 2n-1 points is a violation (deterministic despite the 32-bit field); verifier-share tampering over 8 keys; codecs; the query-point rejection loop against scripted streams containing every 2n-th root of unity.",
+   note="The HMAC/AES derivation of the query point is not re-derived (binding is C18's); at length 2^19-1 only systematic acceptance is flagged.",
+   design="§2 C19")
+CHECKS["C20"] = dict(level="model_checking", engine="bfs",
+   technique="explicit-state enumeration of aggregation-parameter histories with the real is_agg_param_valid as transition guard, vs the specification predicate over Vec<bool>; exhaustive constructor/decoder grammars",
+   text="State = full history of parameters used with a report (all 273 parameters for <=3 bits, every history of length <=2, thorough <=3; 4 bits with sets of size <=2); every candidate is offered to the real is_agg_param_valid and compared with the specification predicate; try_from_prefixes on every list of <=3 prefixes of length 0..3 and at the 65536/65537-bit limit; the decoder on every string of a bounded grammar (levels 0..16, count <=4, 6-value byte alphabet, lying count fields, +-1 byte) against a reference parser, accepted strings must re-encode identically; Prio3/Prio2 single-use rule.",
+   note="The transition relation is the library function itself (no separate model); histories need not be admissible themselves.",
+   design="§2 C20")
+
 NOT_APPLICABLE = {}
 
 def main():
